@@ -170,7 +170,7 @@ def st4_callbacks_live_in_the_loop(ctx, rep):
             continue
         rep.check(inR and not inO and not inC, R, "callback-only-in-reducer-loop:%s:%s" % (ev, fn), s.where,
                   "%s is reachable only from the reducer thread's loop" % ev, "%s is reachable from %s" % (ev, "client/pool/thread code" if (inO or inC) else "nowhere on the reducer thread"))
-    rep.floor(R, "callback call sites", n, 9)
+    rep.floor(R, "callback call sites", n, 6)
 
 
 def st5_idempotent(ctx, rep):
